@@ -88,6 +88,30 @@ CLAIMED = {
         note=TRUST + " Solver and approxmc are abstract/stand-ins. signal_probability's cone extraction (tx.subcircuit) is tied "
              "by correspondence and brute-force search, the theorem is about the count on the extracted cone.",
         ref="§4 C08"),
+    "C06": dict(
+        technique="Lean 4 theorems (exact node/edge/registry structure of add_subcircuit and fill_blackbox, and their "
+                  "semantic consequences) + exact structural correspondence after every call + simulation search",
+        text="Proof: `add_subcircuit_struct` (parent nodes untouched and in order, child nodes appended under injective prefixed "
+             "names with io stripped, wires = parent's + child's + exactly the requested connections, sub-blackboxes carried over), "
+             "`add_subcircuit_io`, `add_subcircuit_sem` (spliced nodes satisfy the child's gate equations, connected inputs are "
+             "buffers of their nets, untouched parent nodes keep their equations), `add_subcircuit_disjoint`, `pref_injective`, "
+             "`fill_blackbox_struct`, `fill_blackbox_sem` — for all parents, children, names and connection maps. "
+             "strip_blackboxes is modelled and tied by correspondence and a structural search oracle only (no theorem): partial there.",
+        note=TRUST + " Proof-forced hypothesis `hfb` (machine-checked counterexample in CG/Proofs/C06Cex.lean): an output "
+             "connection must not feed back into a non-input node of the spliced child itself.",
+        ref="§4 C06"),
+    "C12": dict(
+        technique="Lean 4 theorems (BFS closure = reachability, Kahn order, longest-path characterisation of levelize and of "
+                  "the recursive depth visit incl. completeness, k-cut separation) + differential correspondence of every query "
+                  "+ brute-force graph-definition search",
+        text="Proof: `fanin_fanout_spec`, `transitive_spec`, `startpoints_endpoints_spec`, `topo_valid`, `is_cyclic_iff`, "
+             "`levelize_spec`, `reconvergent_iff`, `depth_rejects_cyclic`, `depth_sound`, `depth_complete` (the recursive visit "
+             "returns exactly the longest path length, for every iteration order), `kcuts_sep` — all unbounded. networkx "
+             "primitives (ancestors/descendants, DAG test, topological order) are re-implemented from their documented meaning "
+             "and tied by running every query against the real code on generated DAGs and cyclic graphs.",
+        note=TRUST + " `kcuts_sep` needs 0 < k (k = 0 is known finding K26). fanin/fanout_depth(maximum=False) is covered by "
+             "correspondence only.",
+        ref="§4 C12"),
 }
 
 NOT_YET = "check not built yet in this round (see DESIGN.md §4 for the plan); will be claimed when its Lean model and harness exist"
